@@ -243,7 +243,34 @@ def camb_wcdm_scenario():
         lb = np.array(b._unnormalised_lnT)
         if np.array_equal(la, lb) and not viol:
             pass        # (w0 may legitimately be ignored by this version: not a sharing question)
-    return viol, 2
+        # a CAMBparams object supplied by the caller: once the framework that was given it has been read, nothing done to a *copy* of
+        # that framework (clone with another cosmology, deepcopy + update, reads of the copy) may reach the caller's object again, and
+        # the original then recomputes like a bystander built from equal arguments
+        def cp_state(cp_):
+            return (float(cp_.H0), float(cp_.omch2), float(cp_.ombh2), float(cp_.omk))
+        for how in ("clone", "deepcopy+update"):
+            def mk():
+                return camb.CAMBparams(DoLensing=False, Want_CMB=False, Want_CMB_lensing=False, WantCls=False, WantDerivedParameters=False)
+            cp = mk()
+            a2 = Transfer(transfer_model="CAMB", transfer_params={"camb_params": cp}, **grid)
+            a2.power
+            by = Transfer(transfer_model="CAMB", transfer_params={"camb_params": mk()}, **grid)
+            by.power
+            st0 = cp_state(cp)
+            chg = {"cosmo_params": {"H0": 60.0, "Om0": 0.35}}
+            c2 = a2.clone(**chg) if how == "clone" else copy.deepcopy(a2)
+            if how != "clone":
+                c2.update(**chg)
+            c2.power
+            script2 = ["cp = camb.CAMBparams(...)", "a = Transfer(transfer_model='CAMB', transfer_params={'camb_params': cp}); a.power", f"c = a.{how}(cosmo_params={{'H0': 60, 'Om0': 0.35}}); c.power"]
+            if cp_state(cp) != st0:
+                viol.append({"key": f"CAMB-user-params/{how}/caller-object", "what": f"the caller's CAMBparams object was modified through a copy of the framework it was given to: (H0, omch2, ombh2, omk) {st0} -> {cp_state(cp)}",
+                             "replay": {"kind": "c11-program", "script": script2}})
+            a2.update(dlnk=0.4); by.update(dlnk=0.4)
+            if not np.allclose(a2.power, by.power, rtol=1e-9):
+                viol.append({"key": f"CAMB-user-params/{how}/original-vs-bystander", "what": f"after work on a copy ({how}), the original recomputes a power spectrum {float(np.max(np.abs(a2.power / by.power - 1))):.3g} away from a bystander built from equal arguments",
+                             "replay": {"kind": "c11-program", "script": script2 + ["a.update(dlnk=0.4); b.update(dlnk=0.4); a.power vs b.power"]}})
+    return viol, 4
 
 
 def caller_arrays_scenario():
